@@ -1,4 +1,147 @@
+import BobModel.Model.Share
 import BobModel.Util.Proto
-open Lean Proto
-/-- stub driver of C15: replaced when the model of this property is built -/
-def main : IO Unit := runPure fun _ => err "unsupported"
+open Lean Proto Share
+
+/-
+Stateful line protocol (one session = one store that lives across schedules):
+ {"op":"reset","ff":b}                         empty store, flush-before-unlock flag
+ {"op":"procs","progs":[prog,...]}             replace the process list (all at `start`), keep the store
+ {"op":"step","p":i}                           -> {"blocked":b,"pc":name,"at":bid|null,"res":res|null,"pub":b}
+ {"op":"snap","bids":[..],"wss":[..]}          -> store snapshot
+ {"op":"select","quota":q|null,"pruneUnused":b,"cands":[[unused,time,size,bid],..],"total":n}
+                                                -> {"plan":[bid..],"size":n,"terr":b}
+prog = {"op":"use","ws","bid","link"} | {"op":"install","ws","bid","dst","claimed","size","hasAudit","link"}
+     | {"op":"gc","pruneUsed","pruneUnused","dryRun"} | {"op":"dropws","ws"}   each with "quota": n|null, "autoClean": b
+The directory hash of the model run is the identity on content ids.
+-/
+
+structure Sess where
+  ff : Bool
+  s : St
+
+def progOf (j : Json) : Prog :=
+  let quota := match j.getObjVal? "quota" with
+    | .ok .null => none
+    | .ok v => v.getNat?.toOption
+    | _ => none
+  let op : Op := match getStr j "op" with
+    | "use" => .use (getNat j "ws") (getNat j "bid") (getBool j "link")
+    | "install" => .install (getNat j "ws") (getNat j "bid") (getNat j "dst") (getNat j "claimed")
+        (getNat j "size") (getBool j "hasAudit") (getBool j "link")
+    | "gc" => .gc (getBool j "pruneUsed") (getBool j "pruneUnused") (getBool j "dryRun")
+    | _ => .dropws (getNat j "ws")
+  ⟨op, quota, getBool j "autoClean"⟩
+
+def errName : Err → String
+  | .fileNotFound => "fileNotFound" | .jsonDecode => "jsonDecode" | .corruptMeta => "corruptMeta"
+  | .hashChanged => "hashChanged" | .installOSError => "installOSError" | .inspect => "inspect"
+  | .typeError => "typeError" | .renameENOENT => "renameENOENT" | .linkExists => "linkExists"
+  | .unlinkMissing => "unlinkMissing"
+
+def resJson : Res → Json
+  | .useNone => Json.mkObj [("r", "useNone")]
+  | .useOk h => Json.mkObj [("r", "useOk"), ("hash", toJson h)]
+  | .inst b => Json.mkObj [("r", "inst"), ("installed", Json.bool b)]
+  | .gcNone => Json.mkObj [("r", "gcNone")]
+  | .gcSize n => Json.mkObj [("r", "gcSize"), ("size", toJson n)]
+  | .shared b => Json.mkObj [("r", "shared"), ("shared", Json.bool b)]
+  | .dropped => Json.mkObj [("r", "dropped")]
+  | .err e => Json.mkObj [("r", "err"), ("e", errName e)]
+
+def optNat : Option Nat → Json
+  | some n => toJson n
+  | none => Json.null
+
+def pcJson (prog : Prog) : Pc → String × Option Nat × Option Res
+  | .start => ("start", none, none)
+  | .uOpen => ("uOpen", none, none) | .uLockRepo => ("uLockRepo", none, none)
+  | .uOpenPkg => ("uOpenPkg", some (opBid prog), none) | .uLockPkg => ("uLockPkg", some (opBid prog), none)
+  | .uClosePkg _ _ => ("uClosePkg", some (opBid prog), none)
+  | .iVerify => ("iVerify", some (opBid prog), none)
+  | .iRename _ => ("iRename", some (opBid prog), none)
+  | .iAddOpen => ("iAddOpen", none, none) | .iAddLock => ("iAddLock", none, none)
+  | .iAddCreate => ("iAddCreate", none, none) | .iAddCreateLock => ("iAddCreateLock", none, none)
+  | .iAddClose _ _ _ => ("iAddClose", none, none)
+  | .gOpen => ("gOpen", none, none) | .gLock => ("gLock", none, none)
+  | .gScanOpen _ todo _ _ => ("gScanOpen", todo.head?.map (·.1), none)
+  | .gScanLock _ b _ _ _ _ => ("gScanLock", some b, none)
+  | .gMove _ plan _ _ _ => ("gMove", plan.head?.map (·.bid), none)
+  | .gClose _ _ => ("gClose", none, none)
+  | .bUnlink _ => ("bUnlink", none, none)
+  | .bSymlink b => ("bSymlink", some b, none)
+  | .done r => ("done", none, some r)
+
+def infoJson : Option (JFile Meta) → Json
+  | none => Json.null
+  | some .torn => "torn"
+  | some (.valid m) => Json.mkObj [("hash", toJson m.hash), ("size", toJson m.size), ("users", toJson m.users)]
+
+def dirJson : Option PkgDir → Json
+  | none => Json.null
+  | some d => Json.mkObj [("audit", Json.bool d.audit), ("ws", optNat d.ws), ("info", infoJson d.info),
+      ("mtime", toJson d.mtime)]
+
+def repoJson : RepoFile → Json
+  | .absent => "absent"
+  | .torn => "torn"
+  | .valid l => Json.arr (l.map fun (b, sz) => Json.arr #[toJson b, toJson sz]).toArray
+
+def natList (j : Json) (k : String) : List Nat :=
+  (getArr j k).filterMap fun x => x.getNat?.toOption
+
+def candOf (j : Json) : Cand :=
+  match j with
+  | .arr a => ⟨(a[0]?.getD Json.null) == Json.bool true, ((a[1]?.getD Json.null).getNat?.toOption).getD 0,
+      ((a[2]?.getD Json.null).getNat?.toOption).getD 0, ((a[3]?.getD Json.null).getNat?.toOption).getD 0⟩
+  | _ => ⟨false, 0, 0, 0⟩
+
+def handle (se : Sess) (j : Json) : Sess × Json :=
+  match getStr j "op" with
+  | "reset" => ({ ff := getBool j "ff", s := ⟨emptyStore, []⟩ }, Json.mkObj [("ok", true)])
+  | "procs" =>
+    ({ se with s := ⟨se.s.g, mkProcs ((getArr j "progs").map progOf)⟩ }, Json.mkObj [("ok", true)])
+  | "step" =>
+    let p := getNat j "p"
+    let bl := blocked se.s p
+    let s' := step id se.ff se.s p
+    match s'.procs[p]? with
+    | none => (se, err "no-such-process")
+    | some pr =>
+      let (name, at_, res) := pcJson pr.prog pr.pc
+      ({ se with s := s' }, Json.mkObj [("blocked", Json.bool bl), ("pc", name), ("at", optNat at_),
+        ("res", match res with | some r => resJson r | none => Json.null), ("pub", Json.bool pr.pub)])
+  | "runp" =>
+    -- run process p until it is done or blocked (at most `max` segments)
+    let p := getNat j "p"
+    let rec go (n : Nat) (s : St) : St :=
+      match n with
+      | 0 => s
+      | n + 1 =>
+        match s.procs[p]? with
+        | none => s
+        | some pr => if pr.pc.isDone || blocked s p then s else go n (step id se.ff s p)
+    let s' := go (getNat j "max") se.s
+    match s'.procs[p]? with
+    | none => (se, err "no-such-process")
+    | some pr =>
+      let (name, at_, res) := pcJson pr.prog pr.pc
+      ({ se with s := s' }, Json.mkObj [("blocked", Json.bool (blocked s' p)), ("pc", name), ("at", optNat at_),
+        ("res", match res with | some r => resJson r | none => Json.null), ("pub", Json.bool pr.pub)])
+  | "snap" =>
+    let g := se.s.g
+    let bids := natList j "bids"
+    let wss := natList j "wss"
+    (se, Json.mkObj [("storeExists", Json.bool g.storeExists), ("repo", repoJson g.repo),
+      ("final", Json.arr (bids.map fun b => dirJson (g.final b)).toArray),
+      ("links", Json.arr (wss.map fun w => optNat (g.links w)).toArray),
+      ("nInst", toJson (bids.map g.nInst)), ("nGc", toJson (bids.map g.nGc))])
+  | "select" =>
+    let quota := match j.getObjVal? "quota" with
+      | .ok .null => none
+      | .ok v => v.getNat?.toOption
+      | _ => none
+    let r := gcSelect quota (getBool j "pruneUnused") ((getArr j "cands").map candOf) (getNat j "total")
+    (se, Json.mkObj [("plan", toJson (r.1.map (·.bid))), ("size", toJson r.2.1), ("terr", Json.bool r.2.2)])
+  | _ => (se, err "bad-op")
+
+def main : IO Unit := run Sess { ff := false, s := ⟨emptyStore, []⟩ } handle
